@@ -124,7 +124,7 @@ def correspondence(ctx):
         code = K.build(cls, size, deform)
         n = code.n
         errors = [list(v) for v in itertools.product([0, 1], repeat=2 * n)]
-        cap = 65536 if ctx.thorough else (1024 if n <= 4 else 300)
+        cap = (4096 if n <= 6 else 1500) if ctx.thorough else (1024 if n <= 4 else 300)
         if len(errors) > cap:
             idx = rng.choice(len(errors), cap, replace=False)
             errors = [errors[i] for i in idx]
@@ -208,7 +208,7 @@ def oracle(ctx, deep=False, broken=None):
     for cls, size, deform in small_codes(ctx):
         n = K.qubit_count(cls, size)
         errors = [list(v) for v in itertools.product([0, 1], repeat=2 * n)]
-        cap = 4096 if deep else (256 if n <= 4 else 100)
+        cap = (1024 if n <= 6 else 400) if deep else (256 if n <= 4 else 100)
         if len(errors) > cap:
             idx = rng.choice(len(errors), cap, replace=False)
             errors = [errors[i] for i in idx]
